@@ -448,6 +448,9 @@ func patternOf(kind string, lit string) string {
 }
 
 func (x *Exec) gammaCrit(c []interface{}) query.Criteria {
+	if (c[0] == "un" || c[0] == "sugar") && len(c) > 3 {
+		plainOperand(toList(c[3]))
+	}
 	switch c[0].(string) {
 	case "sugar": // the derived builders of query.Field
 		f := query.Field(str(c[2]))
@@ -924,6 +927,44 @@ func (x *Exec) alphaDocs(res E, ds []*document.Document) []interface{} {
 	return out
 }
 
+// plainLiterals: to clover a string operand that begins with '$' names a field, whatever a generator that drew it
+// from a pool of strings meant; such a literal is respelled (in place, before the event runs and is logged), so
+// that "lit" operands are literals.  References are generated on purpose, as "ref" and "dollar" operands.
+func plainLiterals(c []interface{}) {
+	if len(c) == 0 {
+		return
+	}
+	switch c[0] {
+	case "un", "sugar":
+		if len(c) > 3 {
+			plainOperand(toList(c[3]))
+		}
+	case "and", "or":
+		plainLiterals(toList(c[1]))
+		plainLiterals(toList(c[2]))
+	case "not":
+		plainLiterals(toList(c[1]))
+	}
+}
+
+func plainOperand(o []interface{}) {
+	if len(o) < 2 {
+		return
+	}
+	switch o[0] {
+	case "lit":
+		if v, ok := o[1].(V); ok && len(v) == 2 && v[0] == "str" {
+			if b := toBytes(v[1]); len(b) > 0 && b[0] == '$' {
+				o[1] = AStr("S" + string(b[1:]))
+			}
+		}
+	case "list":
+		for _, e := range toList(o[1]) {
+			plainOperand(toList(e))
+		}
+	}
+}
+
 // forEachStop runs ForEach with a consumer that returns false at its j-th call (j = 0: never).
 func (x *Exec) forEachStop(res E, db *clover.DB, q *query.Query, j int) ([]interface{}, error) {
 	visits := make([]interface{}, 0)
@@ -940,6 +981,11 @@ func (x *Exec) forEachStop(res E, db *clover.DB, q *query.Query, j int) ([]inter
 // every backend stores the same documents.
 func (x *Exec) Run(b *Backend, e E, genIds [][]byte) E {
 	op := e["op"].(string)
+	for _, step := range toList(e["q"]) {
+		if st := toList(step); len(st) == 2 && st[0] == "where" {
+			plainLiterals(toList(st[1]))
+		}
+	}
 	db := b.db
 	coll, _ := e["c"].(string)
 	coll = unescName(coll)
